@@ -615,6 +615,29 @@ def m_io_copy(I, m, argv, fr, dest, c):
     return io_copy(I, argv[0], argv[1])
 
 
+def m_read_to_end(I, m, argv, fr, dest, c):
+    """Read::read_to_end(&mut reader, &mut Vec<u8>): read() until Ok(0), appending; Interrupted is retried; other errors are returned
+    (bytes read so far stay in the vector).  std probes with adaptive chunk sizes; the chunk size used here is COPY_BUF."""
+    reader, vref = argv[0], argv[1]
+    total = U64(0)
+    holder = {"b": Buf(lambda k: z3.BitVecVal(0, 8), COPY_BUF, COPY_BUF)}
+    for _ in range(MAX_CHUNKS + 4):
+        sl = SliceRef(Loc(holder, "b"), 0, COPY_BUF)
+        r = generic_read(I, reader, sl)
+        if r.vname == "Err":
+            if is_kind(r, "Interrupted"):
+                continue
+            return r
+        n = r.fields[0]
+        if I.path.decide(n == U64(0)):
+            return OkV(total)
+        v = vref.loc.get()
+        old, oldlen, sfn = v.fn, v.length, holder["b"].fn
+        vref.loc.set(Buf(lambda k, old=old, oldlen=oldlen, sfn=sfn: z3.If(z3.ULT(k, oldlen), old(k), sfn(k - oldlen)), z3.simplify(oldlen + n)))
+        total = z3.simplify(total + n)
+    raise Inconclusive("read_to_end: more than %d chunks" % (MAX_CHUNKS + 4))
+
+
 def m_crc_calculate(I, m, argv, fr, dest, c):
     """Crc32::calculate replaced by a sampled checksum: (len[23:0] ++ data[K]) with a symbolic sample index K (see DESIGN C07)."""
     sl = as_slice(I, argv[1])
@@ -763,6 +786,7 @@ def build_models():
         (R(r"^<.* as std::io::Write>::(?P<m>write|write_all|flush)$"), m_write_trait),
         (R(r"^<.* as (?:std::io::)?Seek>::(?P<m>seek|stream_position)$"), m_seek_trait),
         (R(r"^std::io::copy::<"), m_io_copy),
+        (R(r"^<.* as (?:std::io::)?Read>::read_to_end$"), m_read_to_end),
         (R(r"^Crc32::calculate$"), m_crc_calculate),
         (R(r"^Crc32::new$"), m_crc_new),
         (R(r"^<Vec<.*> as Deref(?:Mut)?>::deref(?:_mut)?$|^<String as Deref>::deref$"), m_deref_vec),
